@@ -45,7 +45,7 @@ func refQuotient(coef []*big.Int, fk *big.Int, k int) []*big.Int {
 func init() {
 	core.Register(&core.Check{
 		ID: "C18", Level: "exploration",
-		Rule:   "DivideOnDomain(k, f): ALL 256 indices k x f in {unit vectors (all 256 thorough; e_0,e_1,e_127,e_128,e_255 + e_(k+-1), e_k quick)} u POLY — the routine is linear in f, so unit vectors reach every (i,k) coefficient of the operator; ComputeBarycentricCoefficients(z) for z in {256,257,2^64,r-1,r-2,PRF..} against reference Lagrange coefficients and against p(z) by Horner for POLY; all 512+510 precomputed table entries against their defining products/inverses; a case = (k, f) or (z, f) or a table entry; non-trivial = every case except the zero polynomial",
+		Rule:   "DivideOnDomain(k, f): ALL 256 indices k x f in {unit vectors (all 256 thorough; e_0,e_1,e_127,e_128,e_255 + e_(k+-1), e_k quick)} u POLY — the routine is linear in f, so unit vectors reach every (i,k) coefficient of the operator; ComputeBarycentricCoefficients(z) for z in {256,257,2^64,r-1,r-2,PRF..} against reference Lagrange coefficients and against p(z) by Horner for POLY; all 512+510 precomputed table entries against their defining products/inverses, tables rebuilt under 21 CPU-count overrides, results re-requested after the caller overwrote them; a case = (k, f) or (z, f) or a table entry; non-trivial = every case except the zero polynomial",
 		Assume: []string{"oracle in coefficient form over math/big: interpolation through the master polynomial A(X), synthetic division, Horner on all 256 domain points including k itself"},
 		Units:  c18Units,
 	})
